@@ -15,6 +15,7 @@ Two drivers:
 import array
 import fcntl
 import hashlib
+import re
 import socket
 import sys
 import termios
@@ -26,6 +27,12 @@ SB, EB, CR = b'\x0b', b'\x1c', b'\x0d'
 
 def digest(text):
     return hashlib.sha1(text.encode('utf-8', 'surrogatepass')).hexdigest()[:12]
+
+
+def echo(text):
+    """the last characters of the incoming text, as handlers put them in their replies: a reply holds whatever characters
+    the message held (non-ASCII ones included)"""
+    return (text or '')[-12:].replace('\r', ' ').replace('\n', ' ')
 
 
 class History(object):
@@ -56,13 +63,13 @@ def make_handlers(history, reply_delay=None):
         def reply(self):
             if reply_delay:
                 reply_delay()
-            r = 'ACK|%s|%s' % (digest(self.incoming_message), ','.join(str(a) for a in self.args))
+            r = 'ACK|%s|%s|%s' % (digest(self.incoming_message), ','.join(str(a) for a in self.args), echo(self.incoming_message))
             history.add(ev='reply', cls='OkHandler', msg=self.incoming_message, reply=r, thread=threading.get_ident())
             return r
 
     class OtherHandler(OkHandler):
         def reply(self):
-            r = 'OTHER|%s' % digest(self.incoming_message)
+            r = 'OTHER|%s|%s' % (digest(self.incoming_message), echo(self.incoming_message))
             history.add(ev='reply', cls='OtherHandler', msg=self.incoming_message, reply=r,
                         thread=threading.get_ident())
             return r
@@ -74,7 +81,7 @@ def make_handlers(history, reply_delay=None):
                         thread=threading.get_ident(), args=list(args))
 
         def reply(self):
-            r = 'ERR|%s|%s' % (type(self.exc).__name__, digest(self.incoming_message))
+            r = 'ERR|%s|%s|%s' % (type(self.exc).__name__, digest(self.incoming_message), echo(self.incoming_message))
             history.add(ev='err-reply', cls='ErrHandler', exc=type(self.exc).__name__, msg=self.incoming_message,
                         reply=r, thread=threading.get_ident())
             return r
@@ -122,9 +129,15 @@ def read_all(sock, timeout=5.0):
 class PairDriver(object):
     """drives the real server object over socket.socketpair()"""
 
-    def __init__(self, handlers, timeout=5.0):
-        from hl7apy.mllp import MLLPServer
-        self.server = MLLPServer('127.0.0.1', 0, handlers, timeout=timeout)
+    def __init__(self, handlers, timeout=5.0, encoding=None):
+        from hl7apy.mllp import MLLPServer, MLLPRequestHandler
+        if encoding is None:
+            self.server = MLLPServer('127.0.0.1', 0, handlers, timeout=timeout)
+        else:
+            # the documented way to serve another character set: a request handler class with its own `encoding`
+            cls = type('Handler_' + re.sub(r'\W', '_', encoding), (MLLPRequestHandler,), {'encoding': encoding})
+            self.server = MLLPServer('127.0.0.1', 0, handlers, timeout=timeout, request_handler_class=cls)
+        self.encoding = encoding or 'utf-8'
         self.timeout = timeout
         self.n = 0
         self.max_gap = 0.0     # longest time the server side was left without the next chunk during the last run()
@@ -211,7 +224,7 @@ def expected_outcome(payload_text, registered):
     return ('err', 'UnsupportedMessageType')
 
 
-def check_connection(evs, sent_payload, received, ending, registered, kind, args_by_key=None):
+def check_connection(evs, sent_payload, received, ending, registered, kind, args_by_key=None, encoding='utf-8'):
     """evs: handler events attributed to this connection; kind: 'framed' | 'malformed' | 'degenerate'
     -> list of (cause, detail)"""
     out = []
@@ -238,7 +251,7 @@ def check_connection(evs, sent_payload, received, ending, registered, kind, args
                 replies[0]['ev'] != 'err-reply':
             out.append(('exception-of-a-registered-handler-not-handed-to-ERR', {'handlers': kinds, 'expected_exception': exc,
                                                                                'replies': len(replies)}))
-        elif received != replies[0]['reply'].encode('utf-8'):
+        elif received != replies[0]['reply'].encode(encoding):
             out.append(('client-received-other-bytes-than-the-reply', {'received': received[:80]}))
         return out
     if len(ctors) != 1 or len(replies) != 1:
@@ -260,6 +273,6 @@ def check_connection(evs, sent_payload, received, ending, registered, kind, args
         if key in args_by_key and c.get('args') is not None and list(c['args']) != list(args_by_key[key]):
             out.append(('handler-built-without-its-registered-arguments', {'key': key, 'got': c.get('args'),
                                                                          'registered': list(args_by_key[key])}))
-    if received != r['reply'].encode('utf-8'):
+    if received != r['reply'].encode(encoding):
         out.append(('client-received-other-bytes-than-the-reply', {'received': received[:80], 'reply': r['reply'][:80]}))
     return out
